@@ -298,7 +298,7 @@ End Prims.
 (* ------------------------------------------------------------------ the excluded sites *)
 (* X = the panic sites the invariant [wfm] excludes (Model/Vm.v, Heap.v):
    11 maybe_put_cell "expected ptr" - 12 put_cell of a procedure / continuation / macro object (every
-   cell the compiler and the builtins store is a datum, [cell_is_datum]: repo fixes ba22108, 60f201f) -
+   cell the compiler and the builtins store is a datum, [cell_is_datum]: repo fixes edf2b0d, a8af987) -
    13 get_as_cell: dangling Rc payload - 41 get_lambda -
    42 cur_lambda "%ip is not a procedure" - 43 env_slots - 45 global slot out of range -
    46 / 47 restore_continuation - 48 dec_ip - 49 / 50 / 51 stack_trace.
